@@ -899,3 +899,24 @@ Proof. exists (2 # 25). split; [lra|]. split; [lra|]. exists (1 # 10). split; [r
 Lemma iir_low_refuted : exists ubf, 0 < ubf /\ ubf < 1 /\
   exists ws, iir_of_fracs 0 ubf = IirLow ubf ws /\ ws < ubf.
 Proof. exists (19 # 20). split; [lra|]. split; [lra|]. exists (9 # 10). split; [reflexivity|lra]. Qed.
+
+(* ------------------------------------------------------------------ filtfilt(b, a, in_ts=other) *)
+Lemma filtfilt_in_ts_mean n F own x : (0 < n)%nat ->
+  mean (filtfilt_method n F own (Some x)) n == mean x n.
+Proof. intros H. unfold filtfilt_method, pick. cbv zeta. apply dc_restore_mean; exact H. Qed.
+Lemma filtfilt_own_mean n F own : (0 < n)%nat ->
+  mean (filtfilt_method n F own None) n == mean own n.
+Proof. intros H. unfold filtfilt_method, pick. cbv zeta. apply dc_restore_mean; exact H. Qed.
+(* the analyzer's own data play no part when in_ts is given, and the map in_ts -> output is linear *)
+Lemma filtfilt_in_ts_indep n F own own' x t :
+  filtfilt_method n F own (Some x) t = filtfilt_method n F own' (Some x) t.
+Proof. reflexivity. Qed.
+Lemma filtfilt_in_ts_lin n F own :
+  (forall a b x y t, (t < n)%nat -> F (fun s => a * x s + b * y s) t == a * F x t + b * F y t) ->
+  forall a b x y t, (t < n)%nat ->
+  filtfilt_method n F own (Some (fun s => a * x s + b * y s)) t
+  == a * filtfilt_method n F own (Some x) t + b * filtfilt_method n F own (Some y) t.
+Proof. intros HF a b x y t Ht. apply (wrapped_lin n F HF); exact Ht. Qed.
+Lemma filtfilt_in_ts_axis own i : rate_consistent i ->
+  filtfilt_method_axis own (Some i) = Some (mk_axis (in_shape i) (in_delta i) (in_t0 i) (in_unit i)).
+Proof. intros H. unfold filtfilt_method_axis, pick. apply filter_axis_ok; exact H. Qed.
